@@ -135,6 +135,20 @@ def main():
             if not (np.isfinite(got) and abs(got - want) <= 1e-7 * max(1.0, abs(want))):
                 return dict(reproduced=True, call='check_prior(%r) with prior %r (evaluation %d)' % ({k: float(x) for k, x in vals.items()}, entries, rep + 1),
                             observed=float(got), expected=want)
+    # the 'positive' flag belongs to its own parameter: a flagged parameter followed by an unflagged gaussian one whose value is negative
+    for it in range(40):
+        a, b = rng.uniform(1.5, 4), rng.uniform(0.5, 3)
+        mu, sg = rng.uniform(-2, 1), rng.uniform(0.5, 2)
+        v1, v2 = rng.uniform(0.2, 3), -rng.uniform(0.1, 2)
+        entries = {'k': ['gamma', a, b, 'positive'], 'm': ['gaussian', mu, sg]}
+        st1, w1 = oracle('gamma', [a, b], v1)
+        st2, w2 = oracle('gaussian', [mu, sg], v2)
+        o = object.__new__(PIDInterface)
+        o.prior = entries
+        got = o.check_prior({'k': np.float64(v1), 'm': np.float64(v2)})
+        n += 1
+        if st1 == 'in' and st2 == 'in' and not (np.isfinite(got) and abs(got - (w1 + w2)) <= 1e-7 * max(1.0, abs(w1 + w2))):
+            return dict(reproduced=True, call='check_prior(k=%r, m=%r) with prior %r' % (v1, v2, entries), observed=float(got), expected=w1 + w2)
     return dict(reproduced=False, evaluations=n)
 
 
